@@ -23,9 +23,6 @@ Definition inbox_of (pr : peer_state) (from : peer) : list msg := default [] (n_
 Definition inbox_all (pr : peer_state) : list (peer * list msg) := map_to_list (n_inbox pr).
 Definition pending_cmds (pr : peer_state) : nat := length (concat (snd <$> map_to_list (p_cmdq pr))).
 
-Definition sync_is (u : uuid) (en : entity) : bool :=
-  match en_sync en with Some v => v =? u | None => false end.
-
 (* the local entity carrying SyncEntity{uuid = u}, if any (first in iteration order) *)
 Definition find_by_uuid (pr : peer_state) (u : uuid) : option ent :=
   match filter (fun x => sync_is u x.2) (entities pr) with
@@ -35,3 +32,9 @@ Definition find_by_uuid (pr : peer_state) (u : uuid) : option ent :=
 
 Definition count_by_uuid (pr : peer_state) (u : uuid) : nat :=
   length (filter (fun x => sync_is u x.2) (entities pr)).
+
+Definition assets_list (pr : peer_state) : list (N * N * N) :=
+  (fun '(key, v) => (key `mod` 4, key `div` 4, v)) <$> map_to_list (a_store pr).
+Definition cache_list (pr : peer_state) : list (N * N * N) :=
+  (fun '(key, v) => (key `mod` 4, key `div` 4, v)) <$> map_to_list (h_cache pr).
+Definition cache_lookup (pr : peer_state) (c : aclass) (a : uuid) : option N := h_cache pr !! akey (KClass c) a.
